@@ -16,7 +16,7 @@ LEVEL = "model_checking"
 RULE = ("(a) full product kind x position x required x nullable x literal_enums; (b) full product of kind pairs in one model x "
         "requiredness patterns; (c) deviation-bounded builder (d<=2 quick, d<=3 thorough) over schema / property / operation / tag / "
         "parameter names from the identifier-hostile alphabet, reference-graph shape, parameter location, request and response "
-        "media types, metadata flavour, docstrings_on_attributes, literal_enums; (d) every small reference graph (2 schemas x any of the 4 ordered edges, 3 schemas x <=2 (thorough <=3) edges, edge kinds property / items / union member / additionalProperties / allOf parent, forward and reversed declaration, unrelated and suffix/prefix-related names); (e) the core matrix also declared as OpenAPI 3.0.3 where nothing 3.1-only is used, positions include path-item level parameters shared by two operations; (f) model pairs x how the model is used (component only, multipart / form body, JSON body of one operation and multipart body of another); non-trivial = accepted without error-level "
+        "media types, metadata flavour, docstrings_on_attributes, literal_enums; (d) every small reference graph (2 schemas x any of the 4 ordered edges, 3 schemas x <=2 (thorough <=3) edges, edge kinds property / items / union member / additionalProperties / allOf parent, forward and reversed declaration, unrelated and suffix/prefix-related names); (e) the core matrix also declared as OpenAPI 3.0.3 where nothing 3.1-only is used, positions include path-item level parameters shared by two operations; (g) every ordered pair (thorough: triple) of 4 related documents regenerated into one directory with overwrite; (f) model pairs x how the model is used (component only, multipart / form body, JSON body of one operation and multipart body of another); non-trivial = accepted without error-level "
         "diagnostic and at least one non-default feature")
 FLOOR = 0.5
 ASSUMPTIONS = ["CPython's compile/import/symtable and tomllib decide validity", "names stay inside the quote-free alphabet C01 states"]
@@ -232,6 +232,7 @@ def cases(tier):
     yield from _pairs()
     yield from _default_pairs()
     yield from _graphs(tier)
+    yield from _regenerations(tier)
     bound = 2 if tier == "quick" else 3
     limit = 30000 if tier == "quick" else 400000
     for labels, payload, _d in explore(_build, bound=bound, limit=limit):
@@ -325,7 +326,48 @@ def tree_violations(res, key, do_import=True, names=()):
     return uniq
 
 
+def _regen_docs():
+    ok = lambda n: {"200": {"description": "d", "content": {"application/json": {"schema": {"$ref": "#/components/schemas/" + n}}}}}  # noqa: E731
+    obj = lambda **p_: {"type": "object", "properties": p_}  # noqa: E731
+    op = lambda oid, tag, model: {"get": {"operationId": oid, "tags": [tag], "responses": ok(model)}}  # noqa: E731
+    return {
+        "pets": gen.base_doc({"Pet": obj(name={"type": "string"}), "Owner": obj(pet={"$ref": "#/components/schemas/Pet"})}, paths={"/pets": op("listPets", "pets", "Pet"), "/owners": op("listOwners", "owners", "Owner")}),
+        "renamed": gen.base_doc({"Animal": obj(name={"type": "string"}), "Owner": obj(animal={"$ref": "#/components/schemas/Animal"})}, paths={"/animals": op("listAnimals", "animals", "Animal"), "/owners": op("listOwners", "owners", "Owner")}),
+        "shrunk": gen.base_doc({"Owner": obj(name={"type": "string"})}, paths={"/owners": op("listOwners", "owners", "Owner")}),
+        "moved": gen.base_doc({"Pet": obj(name={"type": "string"}), "Owner": obj(pet={"$ref": "#/components/schemas/Pet"})}, paths={"/pets": op("listPets", "owners", "Pet"), "/owners": op("findOwners", "pets", "Owner")}),
+    }
+
+
+def _regenerations(tier):
+    """(g) every ordered pair (thorough: triple) of related documents generated one after the other into ONE directory with overwrite:
+    the package that is left must be importable and closed, like a fresh one."""
+    names = list(_regen_docs())
+    for seq in itertools.permutations(names, 2 if tier == "quick" else 3):
+        for meta in ("none", "poetry"):
+            yield {"labels": ["regenerate=" + ">".join(seq), f"meta={meta}"], "payload": {"mode": "regenerate", "sequence": list(seq), "meta": meta, "key": "regenerate"}}
+
+
+def _run_regenerate(p):
+    import shutil
+    docs = _regen_docs()
+    out = gen.fresh_dir("regen")
+    res = None
+    try:
+        for i, name in enumerate(p["sequence"]):
+            res = gen.generate(docs[name], meta=p["meta"], out=out, overwrite=i > 0, keep_dir=True)
+            if res.crash:
+                return {"skipped_crash": True, "outcome": f"crash:{res.crash['type']}@{res.crash['where']}", "nontrivial": False}
+            if res.rejected or res.has_error:
+                return {"outcome": "rejected", "nontrivial": False}
+    finally:
+        shutil.rmtree(out, ignore_errors=True)
+    viol = tree_violations(res, p["key"])
+    return {"violations": viol, "outcome": "ok" if not viol else "viol:" + ",".join(sorted({v['oracle'] for v in viol})), "nontrivial": True, "steps": len(p["sequence"])}
+
+
 def run_case(p):
+    if p.get("mode") == "regenerate":
+        return _run_regenerate(p)
     res = gen.generate(p["doc"], meta=p.get("meta", "none"), **p.get("options", {}))
     if res.crash:
         return {"skipped_crash": True, "outcome": f"crash:{res.crash['type']}@{res.crash['where']}", "nontrivial": False}
